@@ -1,6 +1,7 @@
 package props
 
 import (
+	"bytes"
 	"fmt"
 	"os"
 	"runtime"
@@ -29,10 +30,13 @@ type C18Op struct {
 }
 
 type C18Case struct {
-	Shapes   [][]int   `json:"shapes"`
-	Layouts  []Layout  `json:"layouts"`
-	Float    []bool    `json:"float"`
-	DTs      []string  `json:"dts,omitempty"` // per shared tensor: another element type ("" = int32/float64 by Float)
+	Shapes  [][]int  `json:"shapes"`
+	Layouts []Layout `json:"layouts"`
+	Float   []bool   `json:"float"`
+	DTs     []string `json:"dts,omitempty"` // per shared tensor: another element type ("" = int32/float64 by Float)
+	// Decoded: the shared tensor is not the constructed one but what a protobuf round trip of it gives (a
+	// tensor filled in by a decoder, not by the constructor: some lazily set fields are still unset)
+	Decoded  []bool    `json:"decoded,omitempty"`
 	Progs    [][]C18Op `json:"programs"`
 	MaxProcs int       `json:"gomaxprocs"`
 	Repeat   int       `json:"repeat"`
@@ -65,7 +69,7 @@ func (c *C18Case) NTKey() string {
 	return ""
 }
 
-var c18SharedOps = []string{"At", "Slice", "Iterate", "MultIterate", "PrivateSprintBig", "MinBetweenScalar", "MaxBetweenScalar", "Add", "AddShared", "AddScalar", "ScalarSub", "LtScalar", "Lt", "Sum", "Max", "Argmax", "Inner", "MatVecMul", "MatMul", "Dot", "TensorMul", "Clone", "Materialize", "Sprint", "T-safe", "Repeat", "Stack", "Apply", "PrivateUnsafe", "PrivateReturn", "PrivateScalarOther", "PrivateTensorMul"}
+var c18SharedOps = []string{"At", "Slice", "Iterate", "MultIterate", "PrivateNpy", "PrivateSprintBig", "MinBetweenScalar", "MaxBetweenScalar", "Add", "AddShared", "AddScalar", "ScalarSub", "LtScalar", "Lt", "Sum", "Max", "Argmax", "Inner", "MatVecMul", "MatMul", "Dot", "TensorMul", "Clone", "Materialize", "Sprint", "T-safe", "Repeat", "Stack", "Apply", "PrivateUnsafe", "PrivateReturn", "PrivateScalarOther", "PrivateTensorMul"}
 
 // runOp performs one operation and returns a digest of what it delivered.
 func c18RunOp(o C18Op, shared []*tensor.Dense, sharedM []Arr, priv **tensor.Dense) (out string) {
@@ -128,6 +132,18 @@ func c18RunOp(o C18Op, shared []*tensor.Dense, sharedM []Arr, priv **tensor.Dens
 			offs = append(offs, it.LastIndex(0), it.LastIndex(1))
 		}
 		return fmt.Sprint(offs)
+	case "PrivateNpy":
+		// a private tensor goes through a private .npy stream
+		p := fresh([]int{2, 1 + o.Arg%3}, int64(o.Arg%5))
+		if p.Dtype() == tensor.String {
+			return "-"
+		}
+		var buf bytes.Buffer
+		if err := p.WriteNpy(&buf); err != nil {
+			return "err"
+		}
+		q := new(tensor.Dense)
+		return dig(q, q.ReadNpy(&buf))
 	case "Add":
 		return dig(tensor.Add(s, fresh(m.Shape, int64(o.Arg%7))))
 	case "AddShared":
@@ -310,6 +326,15 @@ func (c *C18Case) Run() string {
 		if err != nil {
 			return inconclusive
 		}
+		if i < len(c.Decoded) && c.Decoded[i] && d.Name != "string" {
+			if enc, err := b.T.PBEncode(); err == nil {
+				dec := new(tensor.Dense)
+				if err := dec.PBDecode(enc); err == nil && compareAt(dec, arr, bitEqVal) == "" {
+					b.T = dec
+					b.Detached = true
+				}
+			}
+		}
 		shared = append(shared, b.T)
 		sharedM = append(sharedM, arr)
 		builts = append(builts, b)
@@ -443,11 +468,17 @@ func TestC18(t *testing.T) {
 				c.Float = append(c.Float, rapid.IntRange(0, 2).Draw(rt, "float") > 0)
 				// now and then an element type of another size (16-byte and string elements take paths of their own)
 				c.DTs = append(c.DTs, rapid.SampledFrom([]string{"", "", "", "", "complex128", "string", "int8"}).Draw(rt, "dt"))
+				c.Decoded = append(c.Decoded, rapid.IntRange(0, 3).Draw(rt, "decoded") == 0)
 			}
 			for g := 0; g < ng; g++ {
 				n := rapid.IntRange(5, 40).Draw(rt, "plen")
 				prog := make([]C18Op, n)
 				for k := range prog {
+					if k == 0 && rapid.Bool().Draw(rt, "npyfirst") {
+						// state the library creates on first use is created under contention when every goroutine starts with the same kind of call
+						prog[k] = C18Op{Op: "PrivateNpy", Shared: 0, Arg: rapid.IntRange(0, 30).Draw(rt, "arg")}
+						continue
+					}
 					prog[k] = C18Op{Op: rapid.SampledFrom(c18SharedOps).Draw(rt, "op"), Shared: rapid.IntRange(0, ns-1).Draw(rt, "sh"), Arg: rapid.IntRange(0, 30).Draw(rt, "arg"), Yield: rapid.IntRange(0, 3).Draw(rt, "yield") == 0}
 				}
 				c.Progs = append(c.Progs, prog)
